@@ -6,7 +6,7 @@ usage: run_mutants.py [id-substring ...]"""
 import json, os, subprocess, sys, time
 HERE = os.path.dirname(os.path.abspath(__file__))
 VERIF = os.path.dirname(HERE)
-REPO = "/repo"
+REPO = os.environ.get("SA_REPO", "/repo")
 muts = json.load(open(os.path.join(HERE, "mutants.json")))
 sel = sys.argv[1:]
 results = []
